@@ -148,4 +148,24 @@ theorem C03_prefix_connects (sp : Speech) :
       simp only [hm', Bool.false_eq_true, if_false, List.find?_cons]
       exact ih
 
+/-! ### non-vacuity: a concrete dictionary meets the hypotheses, and the kernel evaluates the list -/
+
+def exW1 : Word := { word := [34442], reading := [12363], speech := .noun .common }     -- 蚊 / か
+def exW2 : Word := { word := [39321], reading := [12363], speech := .noun .common }     -- 香 / か
+def exDict : Dict := { std := [([12363], [exW1, exW2])], stdTrie := [[12363]], anc := [], ancTrie := [] }
+
+example : Dict.WF exDict := by
+  refine ⟨?_, by intro p hp; cases hp⟩
+  intro p hp
+  simp only [exDict, List.mem_singleton] at hp
+  subst hp
+  refine ⟨by simp, ?_⟩
+  intro w hw
+  simp only [List.mem_cons, List.not_mem_nil, or_false] at hw
+  rcases hw with rfl | rfl <;> rfl
+
+/-- Input かか: both homophones are offered, each followed by the rest of the input verbatim, best first. -/
+example : (getCandidates genTables [12363, 12363] exDict .normal [] 5 100).map (List.map fun c => (c.text, c.score))
+    = some [([34442, 12363], 1), ([39321, 12363], 1)] := by decide +kernel
+
 end Chokan.Props.C03
